@@ -180,4 +180,158 @@ theorem body_before_submessages (cfg : Config E) (blk : Block) (fuel : Nat) (ch 
     · exact Or.inl rfl
     · exact Or.inl rfl
 
+/-! ### whole sibling lists: one reply segment per started sub-message, non-empty exactly when wanted -/
+
+/-- `submsg_reply_seg` with the delivered result spelled out: it is the sub-message's own outcome -/
+theorem submsg_reply_seg_exact (cfg : Config E) (blk : Block) (fuel : Nat) (ch : Chain E) (c : Addr)
+    (sm : SubMsg) (tr : Trace) :
+    ∃ tReply : Trace,
+      (executeSubmsg cfg blk (fuel + 1) ch c sm tr).2 = (execute cfg blk fuel ch c sm.msg tr).2 ++ tReply ∧
+      ∀ e, tReply.head? = some e → e.callee = c ∧
+        e.entry = .reply ⟨sm.id, sm.payload, subResultOf (execute cfg blk fuel ch c sm.msg tr).1⟩ := by
+  rw [executeSubmsg_succ]
+  generalize execute cfg blk fuel ch c sm.msg tr = x
+  obtain ⟨o, t⟩ := x
+  have hnil : ∃ tReply : Trace, t = t ++ tReply ∧
+      ∀ e, tReply.head? = some e → e.callee = c ∧ e.entry = .reply ⟨sm.id, sm.payload, subResultOf o⟩ :=
+    ⟨[], by rw [List.append_nil], by intro e he; simp at he⟩
+  cases o with
+  | ok p =>
+    obtain ⟨r, ch1⟩ := p
+    simp only []
+    split
+    · obtain ⟨seg, hs, hh⟩ :=
+        seg_of_trace (reply_trace cfg blk fuel ch1 c ⟨sm.id, sm.payload, .ok r.events r.data⟩ t)
+      refine ⟨seg, ?_, fun e he => ⟨(hh e he).1, (hh e he).2⟩⟩
+      rw [← hs]
+      rcases reply cfg blk fuel ch1 c ⟨sm.id, sm.payload, .ok r.events r.data⟩ t with ⟨o2, t2⟩
+      cases o2 <;> rfl
+    · exact hnil
+  | err =>
+    simp only []
+    split
+    · obtain ⟨seg, hs, hh⟩ := seg_of_trace (reply_trace cfg blk fuel ch c ⟨sm.id, sm.payload, .err⟩ t)
+      exact ⟨seg, hs, fun e he => ⟨(hh e he).1, (hh e he).2⟩⟩
+    · exact hnil
+  | panic => exact hnil
+  | outOfFuel => exact hnil
+
+/-- what one started sub-message contributed to the trace -/
+structure SubSeg where
+  sm : SubMsg
+  /-- everything the sub-message's own message ran, to any depth -/
+  tSub : Trace
+  /-- everything its reply ran: empty, or the `reply` invocation on the dispatcher followed by that reply's sub-tree -/
+  tReply : Trace
+
+def flatSegs : List SubSeg → Trace
+  | [] => []
+  | s :: l => s.tSub ++ s.tReply ++ flatSegs l
+
+/-- the facts about one segment (`n` = fuel of the sub-message's message, `n + 1` of `executeSubmsg`) -/
+structure SegFacts (cfg : Config E) (blk : Block) (c : Addr) (n : Nat) (ch : Chain E) (tr : Trace) (s : SubSeg) : Prop where
+  sub : (execute cfg blk n ch c s.sm.msg tr).2 = tr ++ s.tSub
+  all : (executeSubmsg cfg blk (n + 1) ch c s.sm tr).2 = tr ++ s.tSub ++ s.tReply
+  head : ∀ e, s.tReply.head? = some e → e.callee = c ∧
+    e.entry = .reply ⟨s.sm.id, s.sm.payload, subResultOf (execute cfg blk n ch c s.sm.msg tr).1⟩
+  once : 0 < n → (s.tReply = [] ↔
+    ¬ (replyWanted (execute cfg blk n ch c s.sm.msg tr).1 s.sm.replyOn = true ∧
+       ∃ cd code, (replyState ch (execute cfg blk n ch c s.sm.msg tr).1).contracts.get? c = some cd ∧
+         contractCode? cfg cd.codeId = some code))
+
+theorem segFacts_exists (cfg : Config E) (blk : Block) (c : Addr) (n : Nat) (ch : Chain E) (tr : Trace) (sm : SubMsg) :
+    ∃ s : SubSeg, s.sm = sm ∧ SegFacts cfg blk c n ch tr s := by
+  obtain ⟨tSub, hSub⟩ := trace_grows_execute cfg blk n ch c sm.msg tr
+  obtain ⟨tReply, hReply, hHead⟩ := submsg_reply_seg_exact cfg blk n ch c sm tr
+  rw [hSub] at hReply
+  refine ⟨⟨sm, tSub, tReply⟩, rfl, hSub, hReply, hHead, ?_⟩
+  intro hn
+  obtain ⟨m, rfl⟩ : ∃ m, n = m + 1 := ⟨n - 1, by omega⟩
+  have h := reply_segment_empty_iff cfg blk m ch c sm tr
+  show tReply = [] ↔ _
+  rw [← h, hReply, hSub]
+  constructor
+  · intro e; rw [e, List.append_nil]
+  · intro e
+    have := congrArg List.length e
+    simp only [List.length_append] at this
+    exact List.eq_nil_of_length_eq_zero (by omega)
+
+/-- `Walk n ch sms tr segs`: `processResponse` with fuel `n`, from state `ch` and trace `tr`, starts exactly the
+sub-messages of `segs` — a prefix of `sms`, in order, each after its predecessor together with its reply succeeded,
+each on the state its predecessor left. -/
+inductive Walk (cfg : Config E) (blk : Block) (c : Addr) : Nat → Chain E → List SubMsg → Trace → List SubSeg → Prop
+  | zero (ch : Chain E) (sms : List SubMsg) (tr : Trace) : Walk cfg blk c 0 ch sms tr []
+  | nil (n : Nat) (ch : Chain E) (tr : Trace) : Walk cfg blk c (n + 1) ch [] tr []
+  | starved (ch : Chain E) (sm : SubMsg) (rest : List SubMsg) (tr : Trace) : Walk cfg blk c 1 ch (sm :: rest) tr []
+  | stop (n : Nat) (ch : Chain E) (sm : SubMsg) (rest : List SubMsg) (tr : Trace) (s : SubSeg) :
+      s.sm = sm → SegFacts cfg blk c n ch tr s →
+      (executeSubmsg cfg blk (n + 1) ch c sm tr).1.isOk = false →
+      Walk cfg blk c (n + 2) ch (sm :: rest) tr [s]
+  | next (n : Nat) (ch : Chain E) (sm : SubMsg) (rest : List SubMsg) (tr : Trace) (s : SubSeg)
+      (sr : AppResponse) (ch1 : Chain E) (segs : List SubSeg) :
+      s.sm = sm → SegFacts cfg blk c n ch tr s →
+      (executeSubmsg cfg blk (n + 1) ch c sm tr).1 = .ok (sr, ch1) →
+      Walk cfg blk c (n + 1) ch1 rest (tr ++ s.tSub ++ s.tReply) segs →
+      Walk cfg blk c (n + 2) ch (sm :: rest) tr (s :: segs)
+
+theorem siblings_walk (cfg : Config E) (blk : Block) (c : Addr) (sms : List SubMsg) :
+    ∀ (n : Nat) (ch : Chain E) (resp : AppResponse) (tr : Trace),
+    ∃ segs : List SubSeg,
+      Walk cfg blk c n ch sms tr segs ∧
+      (processResponse cfg blk n ch c resp sms tr).2 = tr ++ flatSegs segs ∧
+      ((processResponse cfg blk n ch c resp sms tr).1.isOk = true → segs.map (·.sm) = sms) := by
+  induction sms with
+  | nil =>
+    intro n ch resp tr
+    cases n with
+    | zero => exact ⟨[], .zero ch [] tr, by rw [processResponse_zero]; simp [flatSegs], fun _ => rfl⟩
+    | succ n => exact ⟨[], .nil n ch tr, by rw [processResponse_succ_nil]; simp [flatSegs], fun _ => rfl⟩
+  | cons sm rest ih =>
+    intro n ch resp tr
+    match n with
+    | 0 =>
+      exact ⟨[], .zero ch _ tr, by rw [processResponse_zero]; simp [flatSegs],
+        by rw [processResponse_zero]; intro h; cases h⟩
+    | 1 =>
+      refine ⟨[], .starved ch sm rest tr, ?_, ?_⟩
+      · rw [processResponse_succ_cons, executeSubmsg_zero]; simp [flatSegs]
+      · rw [processResponse_succ_cons, executeSubmsg_zero]; intro h; cases h
+    | n + 2 =>
+      obtain ⟨s, hs, hf⟩ := segFacts_exists cfg blk c n ch tr sm
+      have hall := hf.all
+      rw [hs] at hall
+      rw [processResponse_succ_cons cfg blk (n + 1)]
+      generalize hy : executeSubmsg cfg blk (n + 1) ch c sm tr = y at hall
+      obtain ⟨o, t⟩ := y
+      simp only at hall
+      cases o with
+      | ok p =>
+        obtain ⟨sr, ch1⟩ := p
+        obtain ⟨segs, hw, htr, hok⟩ := ih (n + 1) ch1
+          { events := resp.events ++ sr.events, data := sr.data.orElse fun _ => resp.data } (tr ++ s.tSub ++ s.tReply)
+        refine ⟨s :: segs, .next n ch sm rest tr s sr ch1 segs hs hf (by rw [hy]) hw, ?_, ?_⟩
+        · simp only []
+          rw [hall, htr]
+          simp [flatSegs, List.append_assoc]
+        · simp only []
+          rw [hall]
+          intro h
+          rw [List.map_cons, hok h, hs]
+      | err =>
+        refine ⟨[s], .stop n ch sm rest tr s hs hf (by rw [hy]; rfl), ?_, ?_⟩
+        · simp only []; rw [hall]; simp [flatSegs, List.append_assoc]
+        · simp only []; intro h; cases h
+      | panic =>
+        refine ⟨[s], .stop n ch sm rest tr s hs hf (by rw [hy]; rfl), ?_, ?_⟩
+        · simp only []; rw [hall]; simp [flatSegs, List.append_assoc]
+        · simp only []; intro h; cases h
+      | outOfFuel =>
+        refine ⟨[s], .stop n ch sm rest tr s hs hf (by rw [hy]; rfl), ?_, ?_⟩
+        · simp only []; rw [hall]; simp [flatSegs, List.append_assoc]
+        · simp only []; intro h; cases h
+
+/-- number of `reply` invocations this level made: the non-empty reply segments -/
+def replyCount (segs : List SubSeg) : Nat := (segs.filter fun s => !s.tReply.isEmpty).length
+
 end CwMt.EngineOrder
